@@ -493,7 +493,8 @@ pub fn extract_fn(ctx: &mut Ctx, blk: &Block) -> Result<(String, Value), String>
         }
     }
 
-    for s in blk.subs_of("rewrite") {
+    for s in blk.subs.iter().filter(|s| s.kind == "rewrite" || s.kind == "rewrite?") {
+        let optional = s.kind == "rewrite?";
         let mut it = s.arg.splitn(3, char::is_whitespace);
         let rule = it.next().unwrap_or("");
         let what = it.next().unwrap_or("");
@@ -528,7 +529,7 @@ pub fn extract_fn(ctx: &mut Ctx, blk: &Block) -> Result<(String, Value), String>
             }
             w => return Err(format!("rewrite: expected stmt|expr, got `{w}`")),
         }
-        if hits == 0 {
+        if hits == 0 && !optional {
             return Err(format!("lost anchor: rewrite pattern `{pat_s}` matches nothing in {path}"));
         }
     }
